@@ -288,7 +288,8 @@ class BatchRepeatLinearOperator(LinearOperator):
 
         inv_quad_term, logdet_term = self.base_linear_op.inv_quad_logdet(inv_quad_rhs, logdet, reduce_inv_quad=False)
 
-        if inv_quad_term is not None and inv_quad_term.numel():
+        # the base operator may return placeholders of any shape for terms that were not requested
+        if inv_quad_rhs is not None and inv_quad_term is not None and inv_quad_term.numel():
             inv_quad_term = inv_quad_term.view(*inv_quad_term.shape[:-1], -1, 1, self.batch_repeat.numel())
             output_shape = list(output_shape)
             output_shape[-2] = 1
@@ -296,7 +297,7 @@ class BatchRepeatLinearOperator(LinearOperator):
             if reduce_inv_quad:
                 inv_quad_term = inv_quad_term.sum(-1)
 
-        if logdet_term is not None and logdet_term.numel():
+        if logdet and logdet_term is not None and logdet_term.numel():
             logdet_term = logdet_term.repeat(*self.batch_repeat)
 
         return inv_quad_term, logdet_term
